@@ -69,7 +69,14 @@ def specs(ctx, n):
     return out
 
 
+def pre_build(ctx):
+    import gen_units
+    gen_units.pre_build(ctx, "translate_search")
+
+
 def run(ctx):
+    import gen_units
+    gen_units.g_unit(ctx, "translate_search")
     u = ctx.unit("D:search(call histories)", "D",
                  "1-4 consecutive search() calls (N from 0 to 14, smaller/larger than n_inits and population; every verbosity setting), all "
                  "optimizers in rotation, populations 1..12, degenerate (single-point / size-1) spaces, memory on/off, "
